@@ -309,7 +309,7 @@ func runC20(t *testing.T, c simrt.Chooser, o Opts) *Out {
 	out.Res = &res
 	_ = closeT
 
-	cancelled := sc.CancelCall >= 0 && rd != nil && rd.calls > sc.CancelCall || res.SigStep > 0
+	cancelled := sc.CancelCall >= 0 && rd != nil && rd.calls > sc.CancelCall || res.SigFired
 	if rd == nil {
 		out.violate("C20.harness", "no-reader", "reader was never created")
 		return out
